@@ -133,6 +133,86 @@ pub fn judge_sync(src: &str, cx: &mut Cx) -> Judged {
     }
 }
 
+/// Evaluate `src` through the REPL of a fresh one-worker system under the deterministic simulator
+/// (fair rounds), judge the outcome. Used for programs that spawn / await.
+pub fn judge_sim(src: &str, cx: &mut Cx) -> Judged {
+    use qverif::sim::Sim;
+    use quiver_environment::ReplError;
+    cx.judged += 1;
+    let mk = |kind, detail: String| Judged { kind, detail, result_type: String::new(), value: None };
+    let r = qverif::catch(|| {
+        let mut sim = Sim::new(1, None, cx.b.clone(), false).with_repl(cx.modules.clone());
+        let req = match sim.submit(src) {
+            Ok(Some(id)) => id,
+            Ok(None) => return Err(mk(Kind::Rejected, "no code".into())),
+            Err(ReplError::Parser(e)) => return Err(mk(Kind::ParseError, format!("{e:?}"))),
+            Err(ReplError::Compiler(e)) => return Err(mk(Kind::Rejected, format!("{e:?}"))),
+            Err(e) => return Err(mk(Kind::Rejected, format!("{e:?}"))),
+        };
+        let mut result = None;
+        let finished = sim.run_fair(3000, |s| {
+            if result.is_none() {
+                result = s.poll_result(req);
+            }
+            result.is_some()
+        });
+        if !finished {
+            return Err(mk(Kind::FuelOut, "hang / step budget".into()));
+        }
+        let rty: Type = sim.repl.as_ref().unwrap().get_last_result_type().clone();
+        Ok((result.unwrap(), rty, sim))
+    });
+    let (res, rty, sim) = match r {
+        Ok(Ok(x)) => x,
+        Ok(Err(j)) => return j,
+        Err(p) => return mk(Kind::VmPanic(p.lines().next().unwrap_or("").to_string()), p),
+    };
+    let prog = sim.env.get_program();
+    let mut types: Vec<Type> = prog.get_types().clone();
+    let rt_id = find_or_push(&mut types, rty.clone());
+    let rt = qverif::catch(|| quiver_core::format::format_type(prog, &rty)).unwrap_or_else(|_| "<unformattable>".into());
+    let mkr = |kind, detail: String, value| Judged { kind, detail, result_type: rt.clone(), value };
+    match res {
+        Ok((v, heap)) => {
+            let fn_types: Vec<usize> = prog.get_functions().iter().map(|f| f.type_id).collect();
+            let resources = prog.collect_resource_names();
+            let consts = prog.get_constants();
+            let bytes = |b: &quiver_core::value::Binary| match b {
+                quiver_core::value::Binary::Heap(i) => heap.get(*i).cloned(),
+                quiver_core::value::Binary::Constant(i) => match consts.get(*i) {
+                    Some(quiver_core::bytecode::Constant::Binary(x)) => Some(x.clone()),
+                    _ => None,
+                },
+            };
+            let ecx = EraseCtx { tuples: prog.get_tuples(), fn_types: &fn_types, builtins: prog.get_builtins(), resources: &resources, bytes: &bytes };
+            let ev = erase(&v, &ecx, &mut types);
+            let mut it = Interner::default();
+            let table = table_sx(&types, prog.get_tuples(), &mut it);
+            let shown = ev_show(&ev);
+            if !cx.model.ask(&table).starts_with("ok") {
+                return mkr(Kind::InhFuelOut, "model refused table".into(), Some(ev));
+            }
+            let a = cx.model.ask(&format!("(inh {rt_id} {})", ev_sx(&ev, &mut it)));
+            let kind = match a.as_str() {
+                "true" => Kind::Inhabits,
+                "false" => Kind::NotInhabits,
+                _ => Kind::InhFuelOut,
+            };
+            mkr(kind, shown, Some(ev))
+        }
+        Err(e) => {
+            let class = qverif::canon::error_class(&e);
+            let kind = if qverif::canon::is_stuck_error(&e) { Kind::Stuck(class) } else { Kind::DomainError(class) };
+            mkr(kind, format!("{e:?}"), None)
+        }
+    }
+}
+
+/// sync path, or the simulator for sources that spawn / select
+pub fn judge(src: &str, cx: &mut Cx) -> Judged {
+    if src.contains('@') || src.contains('!') { judge_sim(src, cx) } else { judge_sync(src, cx) }
+}
+
 fn probe(path: &str, cx: &mut Cx) {
     let text = std::fs::read_to_string(path).expect("probe file");
     for line in text.lines() {
@@ -140,7 +220,7 @@ fn probe(path: &str, cx: &mut Cx) {
         if line.is_empty() || line.starts_with("//") {
             continue;
         }
-        let j = judge_sync(line, cx);
+        let j = judge(line, cx);
         println!("{line}\n   => {} | type: {} | {}", j.kind.tag(), j.result_type, j.detail);
     }
 }
@@ -150,14 +230,15 @@ fn probe(path: &str, cx: &mut Cx) {
 // ---------------------------------------------------------------------------------------------
 
 pub const SIG_TAIL: &str = "stuck=tailcall-arg-unchecked";
-pub const SIG_FIELD_UNION: &str = "unsound=field-access-ignores-nontuple-variants";
+pub const SIG_FIELD_UNION: &str = "access=field-on-union-with-non-tuple-variant"; // fixed 548536f
 pub const SIG_PARTIAL_POS: &str = "unsound=partial-field-resolved-by-declared-position";
 pub const SIG_UNIFY_CYCLE: &str = "unsound=unify-cycle-arm-unchecked";
-pub const SIG_UNIFY_MERGE: &str = "unsound=unify-union-merge-drops-widening";
-pub const SIG_TABLE_TAIL: &str = "unsound=case-table-types-tailcall-branch-as-never";
-pub const SIG_FIELD_COMPL: &str = "unsound=field-complement-on-union-scrutinee";
-pub const SIG_PARTIAL_PAT: &str = "unsound=partial-pattern-ignores-nontuple-variants";
+pub const SIG_UNIFY_MERGE: &str = "unify=union-union-widened-binding-dropped"; // fixed e4496af
+pub const SIG_TABLE_TAIL: &str = "dispatch=tail-call-branch-never-in-table"; // fixed 7ed48d7
+pub const SIG_FIELD_COMPL: &str = "narrow=field-complement-on-union-scrutinee"; // fixed 1d5e1cb
+pub const SIG_PARTIAL_PAT: &str = "pattern=partial-on-union-with-non-tuple-variant"; // fixed fbadbb2
 pub const SIG_REC_BACKREF: &str = "unsound=recursive-type-backreference-misresolved";
+pub const SIG_REPEATED: &str = "unsound=repeated-binder-in-tuple-field-complement";
 pub const SIG_SINGLE_BINDER: &str = "unsound=single-binder-pattern-inherits-scrutinee-provenance";
 
 fn has_node(p: &Prog, f: &dyn Fn(&gen_::Node) -> bool) -> bool {
@@ -195,7 +276,7 @@ fn generic_call_types(p: &Prog, arg: &str, cx: &mut Cx) -> Option<(Unit, usize, 
 
 /// Which known finding (if any) explains the failure `j` of `p` on `arg`?
 pub fn classify(p: &Prog, arg: &Arg, j: &Judged, cx: &mut Cx) -> Option<&'static str> {
-    let still_fails = |src: &str, cx: &mut Cx| judge_sync(src, cx).kind.fails();
+    let still_fails = |src: &str, cx: &mut Cx| judge(src, cx).kind.fails();
     // K1 (F5): the failure disappears when every tail-call argument is routed through an identity
     // function of the callee's parameter type, i.e. when the missing guard is put back
     if has_node(p, &|n| matches!(n, gen_::Node::TailGuard(_))) {
@@ -239,13 +320,6 @@ pub fn classify(p: &Prog, arg: &Arg, j: &Judged, cx: &mut Cx) -> Option<&'static
             return Some(SIG_PARTIAL_POS);
         }
     }
-    // K2: the failure disappears when every field access is a checked pattern match
-    if has_node(p, &|n| matches!(n, gen_::Node::Field(_, _))) {
-        let src = p.render(&arg.src, &Repair { checked_field: true, ..Default::default() });
-        if !still_fails(&src, cx) {
-            return Some(SIG_FIELD_UNION);
-        }
-    }
     // K4 / K5: the guards model accepts the call under the current rules (as the compiler did)
     // but rejects it / types it differently under one alternative rule
     if let Some((unit, pp, rr, aa)) = generic_call_types(p, &arg.src, cx) {
@@ -258,20 +332,21 @@ pub fn classify(p: &Prog, arg: &Arg, j: &Judged, cx: &mut Cx) -> Option<&'static
                 if strict == "reject" {
                     return Some(SIG_UNIFY_CYCLE);
                 }
-                let widened = cx.model.ask(&format!("(call merge-widen {pp} {rr} {aa})"));
-                if widened != cur {
-                    // the dropped widening changes the result type: with it, does the value fit?
-                    match (&j.value, widened.split_whitespace().nth(1)) {
-                        (Some(v), Some(rid)) if widened.starts_with("accept") => {
-                            let a = cx.model.ask(&format!("(inh-scratch {rid} {})", ev_sx(v, &mut it)));
-                            if a == "true" {
-                                return Some(SIG_UNIFY_MERGE);
-                            }
-                        }
-                        _ => return Some(SIG_UNIFY_MERGE),
-                    }
-                }
             }
+            // the instance is sensitive to the union/union merge rule (defect repaired by e4496af)
+            let oldm = cx.model.ask(&format!("(call old-merge {pp} {rr} {aa})"));
+            if oldm != cur {
+                return Some(SIG_UNIFY_MERGE);
+            }
+        }
+    }
+    // C3: the failure disappears when repeated identifiers are written as a fresh binder plus a
+    // separate pin step (`=[K[a], a2], a2 =&a`)
+    {
+        let plain = p.render(&arg.src, &Repair::default());
+        let src = p.render(&arg.src, &Repair { unrepeat: true, ..Default::default() });
+        if src != plain && !still_fails(&src, cx) {
+            return Some(SIG_REPEATED);
         }
     }
     // K12: the failure disappears when every wildcard of the generated patterns is a fresh unused
@@ -280,7 +355,7 @@ pub fn classify(p: &Prog, arg: &Arg, j: &Judged, cx: &mut Cx) -> Option<&'static
         let plain = p.render(&arg.src, &Repair::default());
         let src = p.render(&arg.src, &Repair { bind_wildcards: true, ..Default::default() });
         if src != plain {
-            let r = judge_sync(&src, cx);
+            let r = judge(&src, cx);
             if r.kind.accepted() && !r.kind.fails() {
                 return Some(SIG_SINGLE_BINDER);
             }
@@ -292,12 +367,20 @@ pub fn classify(p: &Prog, arg: &Arg, j: &Judged, cx: &mut Cx) -> Option<&'static
         let plain = p.render(&arg.src, &Repair::default());
         let src = p.render(&arg.src, &Repair { unfold_rec: true, ..Default::default() });
         if src != plain {
-            let r = judge_sync(&src, cx);
+            let r = judge(&src, cx);
             // the unfolded program runs fine — or, when the original got *stuck*, the unfolded one
             // is rejected (the access that got stuck only type-checked on the mis-resolved type)
             if (r.kind.accepted() && !r.kind.fails()) || (r.kind == Kind::Rejected && matches!(j.kind, Kind::Stuck(_))) {
                 return Some(SIG_REC_BACKREF);
             }
+        }
+    }
+    // K2 (last of the single repairs: it is the least specific): the failure disappears when every
+    // field access is a checked pattern match
+    if has_node(p, &|n| matches!(n, gen_::Node::Field(_, _))) {
+        let src = p.render(&arg.src, &Repair { checked_field: true, ..Default::default() });
+        if !still_fails(&src, cx) {
+            return Some(SIG_FIELD_UNION);
         }
     }
     // two known mechanisms at once (e.g. the field-specific complement mis-narrows the scrutinee
@@ -323,6 +406,7 @@ pub fn classify(p: &Prog, arg: &Arg, j: &Judged, cx: &mut Cx) -> Option<&'static
                     full_for_partial: a.full_for_partial || b.full_for_partial,
                     unfold_rec: a.unfold_rec || b.unfold_rec,
                     bind_wildcards: a.bind_wildcards || b.bind_wildcards,
+                    unrepeat: false,
                 };
                 let s1 = p.render(&arg.src, &a);
                 let s2 = p.render(&arg.src, &b);
@@ -330,7 +414,7 @@ pub fn classify(p: &Prog, arg: &Arg, j: &Judged, cx: &mut Cx) -> Option<&'static
                     continue;
                 }
                 let src = p.render(&arg.src, &both);
-                let r = judge_sync(&src, cx);
+                let r = judge(&src, cx);
                 if (r.kind.accepted() && !r.kind.fails()) || (r.kind == Kind::Rejected && matches!(j.kind, Kind::Stuck(_))) {
                     return Some(singles[i].0);
                 }
@@ -352,7 +436,7 @@ fn shrink(p: &Prog, arg: &Arg, tag: &str, cx: &mut Cx, budget: usize) -> Prog {
             }
             used += 1;
             let src = cand.render(&arg.src, &Repair::default());
-            let j = judge_sync(&src, cx);
+            let j = judge(&src, cx);
             if j.kind.fails() && j.kind.tag() == tag && classify(&cand, arg, &j, cx).is_none() {
                 cur = cand;
                 continue 'outer;
@@ -378,6 +462,7 @@ fn report_failure(ev: &mut Ev, p: &Prog, arg: &Arg, j: &Judged, cx: &mut Cx, ori
                 SIG_PARTIAL_PAT => "a partial pattern `(a: p)` / `N(a: p)` against a union is analysed over the tuple variants only: a non-tuple variant reaches the field extraction at run time (or is silently matched) (the failure disappears when the pattern is written as a full tuple pattern)",
                 SIG_REC_BACKREF => "a type taken out of a recursive alias (binder at a recursive position, field access or embedding of a complement-narrowed recursive value, case-table guard) keeps a `Cycle` back-reference that is later resolved against the wrong enclosing boundary (the failure disappears when the alias is replaced by a finite unfolding)",
                 SIG_SINGLE_BINDER => "a destructuring pattern with exactly one binder gives that binder the provenance of the whole matched value (compile_match: `bindings.len() == 1`), so the narrowing of the value re-types the binder (observed on recursive aliases: `=Cons[_, t] => t` types `t` as the Cons cell) (the failure disappears when the wildcards are unused binders)",
+                SIG_REPEATED => "a repeated identifier in a tuple pattern (`=[K[a], a]`) is an equality requirement, but the pattern still takes part in the per-field complement narrowing of later branches (the failure disappears when the repetition is written as a fresh binder plus a pin step)",
                 SIG_UNIFY_MERGE => "unify's union/union arm skips a widened binding that is not assignable to the existing one, losing the widening (the guards model types the call correctly under the take-widened rule)",
                 _ => "known finding",
             };
@@ -388,7 +473,7 @@ fn report_failure(ev: &mut Ev, p: &Prog, arg: &Arg, j: &Judged, cx: &mut Cx, ori
             let tag = j.kind.tag();
             let small = if ev.violation_count() < 4 { shrink(p, arg, &tag, cx, 150) } else { p.clone() };
             let ssrc = small.render(&arg.src, &Repair::default());
-            let sj = judge_sync(&ssrc, cx);
+            let sj = judge(&ssrc, cx);
             let sig = format!("unexplained {tag} family={} origin={origin}", p.family);
             let what = format!(
                 "ACCEPTED program violates type soundness: outcome {} ({}), inferred result type `{}`; minimised source: {}",
@@ -470,18 +555,95 @@ fn guard_differential(ev: &mut Ev, cx: &mut Cx, seed: u64, n: u64) {
             }
         };
         let mut it = Interner::default();
-        let table = table_sx(u1.program.get_types(), u1.program.get_tuples(), &mut it);
+        let types0 = u1.program.get_types().clone();
+        let tuples0 = u1.program.get_tuples().clone();
+        let table = table_sx(&types0, &tuples0, &mut it);
         let t = cx.model.ask(&table);
         if !t.starts_with("ok") {
             ev.hit("guard:model-refused-table");
             continue;
         }
-        let hv = cx.model.ask(&format!("(hasvars {pp})"));
+        let new_entries = |prog: &quiver_core::program::Program, nt: usize, nu: usize, it: &mut Interner| -> String {
+            let mut s = "(types".to_string();
+            for t in &prog.get_types()[nt..] {
+                s.push(' ');
+                s.push_str(&type_sx(t, it));
+            }
+            s.push_str(") (tuples");
+            for tu in &prog.get_tuples()[nu..] {
+                let tmp = table_sx(&[], std::slice::from_ref(tu), it);
+                // "(table (types) (tuples X))" -> X
+                let x = tmp.strip_prefix("(table (types) (tuples ").and_then(|y| y.strip_suffix("))")).unwrap_or("?");
+                s.push(' ');
+                s.push_str(x);
+            }
+            s.push(')');
+            s
+        };
+        // --- direct, id-exact differential through the verif hook -----------------------------
+        let hv_impl = qverif::catch(|| quiver_compiler::compiler::verif::contains_variables(pp, &u1.program)).unwrap_or(false)
+            || qverif::catch(|| quiver_compiler::compiler::verif::contains_variables(rr, &u1.program)).unwrap_or(false);
+        let hv_model = cx.model.ask(&format!("(hasvars {pp})")) == "true" || cx.model.ask(&format!("(hasvars {rr})")) == "true";
+        let mut prog = u1.program.clone();
+        let mut b: HashMap<String, usize> = HashMap::new();
+        let ur = qverif::catch(|| quiver_compiler::compiler::verif::unify(&mut b, pp, aa, &mut prog));
+        let impl_unify = match &ur {
+            Ok(Ok(())) => {
+                let mut bs: Vec<(usize, usize)> = b.iter().map(|(k, v)| (it.id(k), *v)).collect();
+                bs.sort();
+                let body: String = bs.iter().map(|(k, v)| format!(" ({k} {v})")).collect();
+                format!("ok (bindings{body}) {}", new_entries(&prog, types0.len(), tuples0.len(), &mut it))
+            }
+            Ok(Err(_)) => format!("fail {}", new_entries(&prog, types0.len(), tuples0.len(), &mut it)),
+            Err(p) => format!("panic {}", p.lines().next().unwrap_or("")),
+        };
+        let model_unify = cx.model.ask(&format!("(unify {pp} {aa})"));
+        ev.case(&(p2.clone()), true);
+        ev.hit(&format!("guard:unify:{}", impl_unify.split_whitespace().next().unwrap_or("")));
+        if hv_impl != hv_model {
+            ev.violation(
+                "guard-differential contains_variables",
+                &format!("contains_variables differs (impl {hv_impl}, model {hv_model}) for parameter `{}`", with_vars.src()),
+                json!({"broken": "correspondence model<->impl on contains_variables", "program_types": p1, "param_id": pp, "result_id": rr, "table": table}),
+                false,
+            );
+        }
+        if impl_unify != model_unify {
+            ev.violation(
+                "guard-differential unify",
+                &format!("unify differs for parameter `{}` and argument `{}`: impl `{impl_unify}`, model `{model_unify}`", with_vars.src(), arg_ty.src()),
+                json!({"broken": "correspondence model<->impl on unify (bindings and registered types, id-exact)",
+                       "program_types": p1, "param_id": pp, "arg_id": aa, "table": table, "impl": impl_unify, "model": model_unify}),
+                false,
+            );
+        } else if let Ok(Ok(())) = &ur {
+            // substitute the bindings into the result type on both sides
+            let (nt, nu) = (prog.get_types().len(), prog.get_tuples().len());
+            let sr = qverif::catch(|| quiver_compiler::compiler::verif::substitute(rr, &b, &mut prog));
+            let impl_subst = match sr {
+                Ok(id) => format!("ok {id} {}", new_entries(&prog, nt, nu, &mut it)),
+                Err(p) => format!("panic {}", p.lines().next().unwrap_or("")),
+            };
+            let mut bs: Vec<(usize, usize)> = b.iter().map(|(k, v)| (it.id(k), *v)).collect();
+            bs.sort();
+            let body: String = bs.iter().map(|(k, v)| format!("({k} {v}) ")).collect();
+            let model_subst = cx.model.ask(&format!("(subst {body}{rr})"));
+            ev.hit("guard:substitute");
+            if impl_subst != model_subst {
+                ev.violation(
+                    "guard-differential substitute",
+                    &format!("substitute differs for result `{}`: impl `{impl_subst}`, model `{model_subst}`", with_vars.src()),
+                    json!({"broken": "correspondence model<->impl on substitute (id-exact)", "program_types": p1, "result_id": rr,
+                           "bindings": body, "table": table, "impl": impl_subst, "model": model_subst}),
+                    false,
+                );
+            }
+        }
+        // --- the whole call guard, verdict through the source route ---------------------------
         let m = cx.model.ask(&format!("(call cur {pp} {rr} {aa})"));
         let mv = m.split_whitespace().next().unwrap_or("").to_string();
-        ev.case(&(p2.clone()), true);
-        ev.hit(&format!("guard:{}:{real}", if hv == "true" { "unify" } else { "compat" }));
-        ev.sample_sparse(i, 400, || json!({"kind": "guard", "param": with_vars.src(), "arg": arg_ty.src(), "impl": real, "model": m}));
+        ev.hit(&format!("guard:call:{}:{real}", if hv_model { "unify" } else { "compat" }));
+        ev.sample_sparse(i, 400, || json!({"kind": "guard", "param": with_vars.src(), "arg": arg_ty.src(), "impl": real, "model": m, "unify_impl": impl_unify}));
         if mv != real {
             ev.violation(
                 &format!("guard-differential impl={real} model={mv}"),
@@ -578,7 +740,7 @@ fn run_regression_corpus(ev: &mut Ev, cx: &mut Cx) {
         let src = j["source"].as_str().unwrap_or("").to_string();
         let expect = j["expect"].as_str().unwrap_or("ok").to_string();
         let sig_if_broken = j["signature_if_broken"].as_str().unwrap_or("").to_string();
-        let out = judge_sync(&src, cx);
+        let out = judge(&src, cx);
         ev.case(&src, out.kind.accepted());
         ev.hit(&format!("regression:{}", out.kind.tag()));
         let replay = json!({"source": src, "corpus_entry": name, "outcome": out.kind.tag(), "detail": out.detail, "inferred_type": out.result_type});
@@ -645,7 +807,7 @@ fn main() {
     if let Some(p) = &opts.replay {
         let j: serde_json::Value = serde_json::from_str(&std::fs::read_to_string(p).unwrap()).unwrap();
         let src = j["replay"]["source"].as_str().unwrap_or("").to_string();
-        let out = judge_sync(&src, &mut cx);
+        let out = judge(&src, &mut cx);
         println!("replay source:\n{src}\noutcome: {} | inferred type: {} | {}", out.kind.tag(), out.result_type, out.detail);
         std::process::exit(if out.kind.fails() { 1 } else { 0 });
     }
@@ -661,7 +823,7 @@ fn main() {
         for p in families::generate(&mut r) {
             for arg in &p.args {
                 let src = p.render(&arg.src, &Repair::default());
-                let j = judge_sync(&src, &mut cx);
+                let j = judge(&src, &mut cx);
                 ev.case(&src, j.kind.accepted());
                 ev.hit(&format!("gen:{}:{}", p.family, j.kind.tag()));
                 let e = accepted_by_family.entry(p.family.to_string()).or_insert((0, 0));
@@ -671,6 +833,9 @@ fn main() {
                     for f in &p.features {
                         ev.hit(&format!("feature:{f}"));
                     }
+                }
+                if j.kind == Kind::ParseError && opts.has_flag("--show-parse-errors") {
+                    println!("PARSE-ERROR {}\n   {}", src.replace('\n', " "), j.detail);
                 }
                 ev.sample_sparse(ev.evaluations, 1500, || json!({"kind": "program", "family": p.family, "source": src, "outcome": j.kind.tag(), "type": j.result_type, "value": j.detail}));
                 if j.kind.fails() {
